@@ -460,8 +460,13 @@ func verif_C11_mailparams() {
 		case len(v) == 0 || hasEq || !alld:
 			class = vInvalid
 		}
-	case 1: // ENVID
-		v := verifValueOctets(3)
+	case 1: // ENVID: a short arbitrary value, or a value with two hexchars of which up to two octets are arbitrary
+		var v string
+		if nondetBool() {
+			v = verifValueOctets(3)
+		} else {
+			v = verifMutate(verifMutate("i+41d+42"))
+		}
 		param = "ENVID=" + v
 		xc, dec := refXtext(v)
 		switch {
